@@ -50,6 +50,8 @@ func init() {
 			{ID: "C20-R27", Title: "a group that spans lines closes after a line break too", Floor: 1, Run: aGroupThatSpansLinesClosesAfterALineBreakToo},
 			{ID: "C20-R28", Title: "positions from template fragments do not outlive the fragment", Floor: 1, Run: positionsFromFragmentsDoNotOutliveTheFragment},
 			{ID: "C20-R29", Title: "text copied across line ends drops the carriage return", Floor: 1, Run: textCopiedAcrossLineEndsDropsTheCarriageReturn},
+			{ID: "C20-R30", Title: "a step over line breaks stands where the line break is", Floor: 1, Run: aStepOverLineBreaksStandsWhereTheLineBreakIs},
+			{ID: "C20-R31", Title: "errors about a node are reported at the node", Floor: 20, Run: errorsAboutANodeAreReportedAtTheNode},
 		},
 	})
 }
